@@ -113,6 +113,11 @@ def families(rng, prob):
                                                        "user_params": {"restarts.use_restarts": True, "restarts.use_soft_restarts": False,
                                                                        "restarts.max_npt": n + 3, "restarts.increase_npt_amt": 2}}),
            ("soft-restarts-reached", {"rhoend": 1e-2, "maxfun": 150, "user_params": {"restarts.use_restarts": True}}),
+           # hard restarts that really happen AND enlarge the point set: the restarted run must get all its initial directions from
+           # the (deterministic) coordinate construction, not fall into the growing phase (seeded C19_11)
+           ("hard-restarts-increase-npt-reached", {"rhoend": 1e-2, "maxfun": 150,
+                                                   "user_params": {"restarts.use_restarts": True, "restarts.use_soft_restarts": False,
+                                                                   "restarts.increase_npt": True, "restarts.max_npt": n + 3}}),
            ("regression-extra-steps-no-momentum", {"npt": 2 * n + 1, "user_params": {"regression.num_extra_steps": 2,
                                                                                      "regression.momentum_extra_steps": False}}),
            # documented as random:
